@@ -9,13 +9,14 @@ import os, collections
 from vlib import *
 
 PROPS = ['Props/Properties_C15.v']
-INDEXED = ('CBI', 'CBIC')
+INDEXED = ('CBI', 'CBIC', 'BTMP', 'BMOM')
 EXTRACT = '''From Coq Require Import Extraction ExtrOcamlBasic.
 Require Import Num Vec Tree C15_Model.
 Extraction Language OCaml.
 Extraction "c15model.ml" calcSystemMass calcSystemMassCenterLocationInGround calcSystemMassCenterVelocityInGround
   calcSystemMassCenterAccelerationInGround sysMassPropsInertia calcSystemCentralInertiaInGround
-  calcSystemMomentumAboutGroundOrigin calcSystemCentralMomentum calcKineticEnergy out_cbi mkBody mkCbx.
+  calcSystemMomentumAboutGroundOrigin calcSystemCentralMomentum calcKineticEnergy out_cbi mkBody mkCbx
+  mkBodyB mkCbxB toG transformedMassPropsB bodyCentralMomentumB.
 '''
 
 def build(ctx, pid, model_vo, extract_text, mlname, drv_src, probe_src):
@@ -51,10 +52,10 @@ def parse(out, indexed):
             cur['inputs'].append(line)
             if t[0] == 'BODY':
                 cur['types'].append((t[3], int(t[4])))
-                if float.fromhex(t[8]) == 0.0: cur['massless'] += 1
+                if t[1] != '0' and float.fromhex(t[8]) == 0.0: cur['massless'] += 1
     return systems
 
-def compare(ctx, pid, d, mode, nsys, maxb, indexed, rtol, atol, seed_offset=0, scale_tags=None):
+def compare(ctx, pid, d, mode, nsys, maxb, indexed, rtol, atol, seed_offset=0, skip=None):
     """run probe and model driver on the same systems, compare every OUT line; returns (n, disagreements, stats)"""
     seed = ctx.seed + seed_offset
     rc1, o1, e1 = sh([os.path.join(d, 'probe'), mode, str(seed), str(nsys), str(maxb)], timeout=1800)
@@ -67,16 +68,17 @@ def compare(ctx, pid, d, mode, nsys, maxb, indexed, rtol, atol, seed_offset=0, s
     S1 = [s for s in P1 if s is not None]; S2 = [s for s in parse(o2, indexed) if s is not None]
     if len(S1) != len(S2) or not S1:
         ctx.broken.append(('correspondence:' + pid, 'system count mismatch %d vs %d' % (len(S1), len(S2)))); return 0, [], {}
-    dis = []; ncmp = collections.Counter(); typehist = collections.Counter(); modehist = collections.Counter(); distinct = set(); nontriv = 0; nmassless = 0; nflag = 0
+    dis = []; ncmp = collections.Counter(); typehist = collections.Counter(); modehist = collections.Counter(); distinct = set(); nontriv = 0; nmassless = 0; flaghist = collections.Counter(); nskip = collections.Counter()
     for k, (a, b) in enumerate(zip(S1, S2)):
         for ty in a['types']: typehist['%s%s' % (ty[0], '(rev)' if ty[1] else '')] += 1
-        modehist[a['mode']] += 1; nmassless += a['massless']; nflag += a['flag']
+        modehist[a['mode']] += 1; nmassless += a['massless']; flaghist[a['flag']] += 1
         sig = (tuple(a['types']), a['mode'])
         if a['nb'] >= 3 and sig not in distinct: nontriv += 1
         distinct.add(sig)
         # scale per system: the largest magnitude among the compared outputs of the same tag family
         for key, va in a['outs'].items():
             vb = b['outs'].get(key)
+            if skip and skip(a, key): nskip[key[0]] += 1; continue
             ncmp[key[0]] += 1
             sc = max([1.0] + [abs(x) for x in va if x == x and abs(x) != float('inf')])
             if vb is None or len(vb) != len(va) or not all(close(x, y, rtol, atol, sc) for x, y in zip(va, vb)):
@@ -84,8 +86,8 @@ def compare(ctx, pid, d, mode, nsys, maxb, indexed, rtol, atol, seed_offset=0, s
         for key in b['outs']:
             if key not in a['outs']:
                 dis.append({'system': k, 'seed': seed, 'tag': key[0], 'index': key[1], 'impl': None, 'model': b['outs'][key], 'inputs': a['inputs']})
-    stats = {'systems': len(S1), 'skipped_by_generator': skipped, 'compared_per_tag': dict(ncmp), 'mobilizer_histogram': dict(typehist),
-             'mass_mode_histogram': {str(k): v for k, v in modehist.items()}, 'massless_bodies': nmassless, 'systems_with_flag': nflag,
+    stats = {'systems': len(S1), 'skipped_by_generator': skipped, 'compared_per_tag': dict(ncmp), 'not_compared_outside_theorem_domain': dict(nskip), 'mobilizer_histogram': dict(typehist),
+             'mass_mode_histogram': {str(k): v for k, v in modehist.items()}, 'massless_bodies': nmassless, 'flag_histogram': {str(k): v for k, v in sorted(flaghist.items())},
              'distinct_type_vectors': len(distinct), 'rtol': rtol, 'atol': atol, 'max_bodies': maxb}
     first = S1[0]
     sample = {'bodies': [l[:160] for l in first['inputs'] if l.startswith('BODY')][:2],
@@ -107,13 +109,27 @@ def search(ctx, pid, d, n, maxb):
         ctx.report('impl:' + f.split()[2], 'implementation violates %s predicate: %s' % (pid, f),
                    {'replay_cmd': '%s search %d %d %d' % (exe, ctx.seed + 7, n, maxb), 'failing_input': f})
 
+def witness(ctx, d):
+    """replay of the floating-point defect outside the theorems' domain: a chain of two massless welded frames on a massive body"""
+    rc, out, err = sh([os.path.join(d, 'probe'), 'witness'], timeout=300)
+    w = [l for l in out.split('\n') if l.startswith('WITNESS cbi-nan-massless-chain')]
+    ctx.extra['witness_cbi_nan_massless_chain'] = w[0] if w else 'witness did not run: rc=%d %s' % (rc, err[-200:])
+    if w and ' nan=1 ' in w[0]:
+        ctx.report('cbi-nan-massless-chain',
+                   'calcCompositeBodyInertias: Ground-Pin->B1(mass 2)-Weld->B2(massless)-Weld->B3(massless) gives a NaN composite inertia for B1 '
+                   '(SpatialInertia::operator+= divides by the combined mass 0+0 of B2 and B3); the sum over the subtree is the inertia of B1: ' + w[0],
+                   {'replay_cmd': '%s witness' % os.path.join(d, 'probe'), 'failing_input': w[0]})
+
 def run(ctx):
     ctx.build_repo()
     ctx.coq_props(PROPS)
     d = build(ctx, 'C15', 'C15/C15_Model.vo', EXTRACT, 'c15model', 'C15_drv.ml', 'C15_probe.cpp')
     if d:
         nsys, maxb = (400, 10) if ctx.tier == 'quick' else (6000, 14)
-        n, dis, stats = compare(ctx, 'C15', d, 'corr', nsys, maxb, INDEXED, 1e-9, 1e-11)
+        # composite inertias are compared on the theorems' domain (every subtree has non-zero mass); in the all-massless systems (mode 2)
+        # the code divides 0/0 (known finding cbi-nan-massless-chain, replayed below) and a repaired code would differ from the faithful model
+        n, dis, stats = compare(ctx, 'C15', d, 'corr', nsys, maxb, INDEXED, 1e-9, 1e-11,
+                                skip=lambda sysm, key: key[0] in ('CBI', 'CBIC') and sysm['mode'] == 2)
         ctx.extra['correspondence'] = stats
         if dis:
             x = dis[0]
@@ -123,13 +139,17 @@ def run(ctx):
     ctx.cov['rule'] = ('random simbody trees (1..N bodies; chain/star/random branching; 17 mobilizer types x forward/reversed; quaternion or Euler; gravity; '
                        'mass modes: all massive / some non-terminal bodies massless / all massless welded); compared with the extracted model (rel tol 1e-9 of the '
                        'largest component): calcSystemMass, MassCenterLocation/Velocity/Acceleration, calcSystemMassPropertiesInGround, CentralInertia, '
-                       'MomentumAboutGroundOrigin, CentralMomentum, calcKineticEnergy, calcCompositeBodyInertias and getCompositeBodyInertia for every body; '
+                       'MomentumAboutGroundOrigin, CentralMomentum, calcKineticEnergy, calcCompositeBodyInertias and getCompositeBodyInertia for every body, and per body '
+                       'MassProperties::calcTransformedMassProps(~X_GB) and calcBodyMomentumAboutBodyMassCenterInGround; '
                        'non-trivial = at least 3 bodies incl. Ground, distinct by (vector of (mobilizer type, reversed), mass mode)')
     ctx.assumptions += ['theorems over R; float runs only validate the model against the code',
-                        'per-body inputs (X_GB, V_GB, A_GB, mass, mass centre, unit inertia) are the values the implementation reports; re-expression of the '
-                        'body-frame mass centre and unit inertia in Ground is done in the harness with plain Mat33 arithmetic',
+                        'per-body inputs (X_GB, V_GB, A_GB, mass, mass centre and unit inertia in B) are the raw values the implementation reports; the model '
+                        're-expresses them in Ground itself (toG); that this equals the code\'s shift-in-B-then-re-express order is proved for orthonormal R_GB, '
+                        'orthonormality of simbody\'s Rotation being C27\'s subject',
                         'composite inertia theorems need every partial combined mass non-zero (holds when no mass is negative and no terminal body is massless); '
                         'aggregate theorems that divide need total mass non-zero']
+    if d:
+        witness(ctx, d)
     if ctx.broken or ctx.tier == 'thorough':
         search(ctx, 'C15', d, 600 if ctx.tier == 'quick' else 6000, 12)
     ctx.finish()
